@@ -20,6 +20,8 @@ EXPLANATION = (
     "dereferencing, unwrap_shared_ptr validates first and returns a copy, create_object frees what it "
     "allocates. Not decided: histories under MATLAB's object lifetime rules, exceptions thrown by user code "
     "between allocation and registration, correctness of the callee (C06).")
+EXPLANATION += (
+    " H6: every value handed to wrap_shared_ptr / the shared-return template is the callee's own shared pointer passed through or a std::make_shared copy, never a shared_ptr constructed around an address. H7: no compute-once table in the MATLAB wrapper is keyed by a mere projection of what its value is computed from (e.g. enum names per namespace *name*), so marshalling decisions depend on the declaration at hand only.")
 ASSUMPTIONS = ["the .m files are the only client of the gateway (ids reach routines as decided by C05)",
                "clang/stubs as in C18"]
 
